@@ -243,7 +243,73 @@ impl Check for C11 {
                 one(run, 4000 + di, l, "device-space-call-ignores-transform", a, b, di == 1);
             }
         });
+        // (iii') sources are fixed in user space: colour = source evaluated at T^-1(pixel centre)
+        // (the M-IMG / M-GRAD oracles of C13 / C12 on a reduced source set under every invertible T,
+        // including both shears, whose inverse composed with the source transform has integer translation)
+        let mut txf: Vec<Xf> = XFS.iter().copied().filter(|x| xf_to(x).determinant() != 0.0).collect();
+        txf.extend([[1., 0.5, 0., 1., 0., 0.], [1., 0., 1., 1., 2., 0.], [1., -1., 0., 1., 0., 3.], [1., 0., -0.25, 1., 1., 1.]]);
+        run.bound("sources-in-user-space", format!("{} invertible transforms (4 shears with unit diagonal) x (2 images x pad/repeat x nearest/bilinear x 3 source transforms x 2 alphas; 4 gradients x 2 alphas)", txf.len()));
+        run.par(txf.len(), |ti, l| {
+            let t = txf[ti];
+            let big = PathSpec::rect(-100., -100., 200., 200.);
+            for (iw, ih) in [(3, 2), (2, 3)] {
+                let data = image_of(iw, ih, &DISTINCT16, 1);
+                for repeat in [false, true] {
+                    for bilinear in [false, true] {
+                        for sx in [IDENT, [1., 0., 0., 1., 2., -1.], [1., 0., 0., 1., 0.5, 0.25]] {
+                            for alpha in [1.0f32, 0.5] {
+                                let src = SrcSpec::Image { w: iw, h: ih, data: data.clone(), repeat, bilinear, xf: sx };
+                                let scene = Scene { w: S, h: S, dst: Dst::White, ops: vec![Op::SetTransform(t), Op::Fill(big.clone(), src, Opts { mode: BlendMode::Src, alpha, aa: true })] };
+                                l.states += 1;
+                                l.transitions += 2;
+                                l.traces += 1;
+                                l.evals += 1;
+                                match super::c13::eval(&scene) {
+                                    Ok((h, _, _)) => {
+                                        l.outcome(h);
+                                        l.nontrivial += 1;
+                                    }
+                                    Err(mut v) => {
+                                        v.sig = format!("source-in-user-space/{}", v.sig);
+                                        run.report(6000 + ti, v)
+                                    }
+                                }
+                            }
+                        }
+                    }
+                }
+            }
+            let ramp2 = vec![Stop { pos: 0.0, color: 0xffff0000 }, Stop { pos: 1.0, color: 0xff0000ff }];
+            for src in [
+                SrcSpec::Linear { stops: ramp2.clone(), spread: Spr::Pad, p: [1., 1., 7., 5.] },
+                SrcSpec::Radial { stops: ramp2.clone(), spread: Spr::Reflect, p: [4., 4., 3.] },
+                SrcSpec::TwoCircle { stops: ramp2.clone(), spread: Spr::Pad, p: [4., 4., 1., 4.5, 4., 5.] },
+                SrcSpec::Sweep { stops: ramp2.clone(), spread: Spr::Repeat, p: [4., 4., 0., 360.] },
+            ] {
+                for alpha in [1.0f32, 0.5] {
+                    let scene = Scene { w: 24, h: 24, dst: Dst::White, ops: vec![Op::SetTransform(t), Op::Fill(big.clone(), src.clone(), Opts { mode: BlendMode::Src, alpha, aa: true })] };
+                    l.states += 1;
+                    l.transitions += 2;
+                    l.traces += 1;
+                    l.evals += 1;
+                    match super::c12::eval(&scene) {
+                        Ok((h, _, _)) => {
+                            l.outcome(h);
+                            l.nontrivial += 1;
+                        }
+                        Err(mut v) => {
+                            v.sig = format!("source-in-user-space/{}", v.sig);
+                            run.report(6000 + ti, v)
+                        }
+                    }
+                }
+            }
+        });
         // (vi) clear / pop_layer leave the transform as they found it (step oracle's transform clause)
+        let mut ctxs = ctxs;
+        ctxs.push((vec![Op::PushClipRect(0, 0, 2, 8), Op::PushClipRect(4, 0, 8, 8)], vec![Op::PopClip, Op::PopClip]));
+        ctxs.push((vec![Op::PushClipRect(-9, -9, -2, -2)], vec![Op::PopClip]));
+        ctxs.push((vec![Op::PushClipRect(5, 5, 3, 3)], vec![Op::PopClip]));
         run.bound("transform-preserved", "11 transforms x 4 contexts x (clear, layer with clear inside, layer with fill)".to_string());
         run.par(XFS.len(), |ti, l| {
             for (pre, suf) in &ctxs {
@@ -275,7 +341,18 @@ impl Check for C11 {
             Ok(diff_scenes("replay", &a, &b).err())
         } else {
             let scene = parse_scene(case)?;
-            Ok(run_scene("C11", &scene, owns_state, &|_, _, _| None).err())
+            let src_kind = scene.ops.iter().find_map(|o| if let Op::Fill(_, s, _) = o { Some(s.clone()) } else { None });
+            match src_kind {
+                Some(SrcSpec::Image { .. }) if scene.ops.len() == 2 => Ok(super::c13::eval(&scene).err().map(|mut v| {
+                    v.sig = format!("source-in-user-space/{}", v.sig);
+                    v
+                })),
+                Some(s) if s.is_gradient() && scene.ops.len() == 2 => Ok(super::c12::eval(&scene).err().map(|mut v| {
+                    v.sig = format!("source-in-user-space/{}", v.sig);
+                    v
+                })),
+                _ => Ok(run_scene("C11", &scene, owns_state, &|_, _, _| None).err()),
+            }
         }
     }
 }
